@@ -174,6 +174,15 @@ impl Scenario for C17 {
             }
             callers.push(calls);
         }
+        if !faults && r.chance(1, 40) {
+            // one caller, a long history of answered calls, old replies re-sent now and then
+            let n = r.range(70, 140) as usize;
+            let calls: Vec<CallSpec> = (0..n)
+                .map(|_| CallSpec { timeout_ms: 3000 + 3 * m, start_delay_ms: 0, reply: if r.chance(1, 5) { "resend_old" } else { "normal" }.to_string(), delay_ms: r.below(3), to_unconnected: false, jump_to_wrap: 0, unencodable: false })
+                .collect();
+            callers = vec![calls];
+            p.calls_before_start = 0;
+        }
         p.callers = callers;
         if faults && r.chance(2, 3) {
             p.conn_fault = (*r.pick(&["peer_close", "peer_reset", "write_error"])).to_string();
@@ -208,7 +217,7 @@ impl Scenario for C17 {
             components_stubbed: &["TCP (SimNet)", "EPMD (stub)", "remote node: handshake acceptor + rex model with an independent frame/term reader"],
             assumptions: &["the peer ticks every 5 simulated seconds so that the receiver's 10 s read timeout (a C19 question) does not interfere", "RpcTimeout is judged inadmissible only if a reply addressed to the call was written by the peer at least `margin` before the call returned (margin = injected network/yield delay bound)"],
             fault_prefixes: &["fault.", "net."],
-            expected_probes: &["probe.c17.ok", "probe.c17.ok_with_unbounded_timeout", "probe.c17.unencodable_request_rejected", "probe.c17.reply_with_legacy_pid_tag", "probe.c17.timeout", "probe.c17.reply_after_timeout_dropped", "probe.c17.duplicate_reply_dropped", "probe.c17.unknown_pid_reply_dropped", "probe.c17.not_connected", "probe.c17.send_failed", "probe.c17.liveness_probe_ok", "probe.c17.counter_moved_to_wrap", "probe.c17.calls_before_start"],
+            expected_probes: &["probe.c17.ok", "probe.c17.ok_with_unbounded_timeout", "probe.c17.unencodable_request_rejected", "probe.c17.old_reply_sent_again", "probe.c17.long_history", "probe.c17.reply_with_legacy_pid_tag", "probe.c17.timeout", "probe.c17.reply_after_timeout_dropped", "probe.c17.duplicate_reply_dropped", "probe.c17.unknown_pid_reply_dropped", "probe.c17.not_connected", "probe.c17.send_failed", "probe.c17.liveness_probe_ok", "probe.c17.counter_moved_to_wrap", "probe.c17.calls_before_start"],
         }
     }
 }
@@ -307,6 +316,7 @@ async fn rex(w: Arc<World>, mut conn: ServerConn, p: Arc<Plan>, sh: Arc<Mutex<Sh
     let mut cache = RecvCache::default();
     let mut n_reqs = 0u64;
     let mut last_reply: Option<(Val, Val)> = None;
+    let mut old_replies: Vec<(Val, Val)> = Vec::new();
     loop {
         if (p.conn_fault == "peer_close" || p.conn_fault == "peer_reset") && n_reqs >= p.conn_fault_at {
             if p.conn_fault_delay_ms > 0 {
@@ -394,6 +404,15 @@ async fn rex(w: Arc<World>, mut conn: ServerConn, p: Arc<Plan>, sh: Arc<Mutex<Sh
                 };
                 sends.push((spec.delay_ms, ghost, content(nonce())));
             }
+            "resend_old" => {
+                // any earlier reply of this connection, again, addressed as it was the first time
+                if !old_replies.is_empty() {
+                    let (to, c) = old_replies[w.draw(old_replies.len() as u32) as usize].clone();
+                    sends.push((0, to, c));
+                    w.stat("probe.c17.old_reply_sent_again");
+                }
+                sends.push((spec.delay_ms, from.clone(), content(nonce())));
+            }
             "resend_earlier" => {
                 if let Some((to, c)) = last_reply.clone() {
                     sends.push((u64::from(w.draw(10)), to, c));
@@ -405,6 +424,7 @@ async fn rex(w: Arc<World>, mut conn: ServerConn, p: Arc<Plan>, sh: Arc<Mutex<Sh
         for (delay, to, c) in sends {
             if to == from {
                 last_reply = Some((to.clone(), c.clone()));
+                old_replies.push((to.clone(), c.clone()));
             }
             let tx = tx.clone();
             let legacy = p.legacy_ids;
@@ -481,6 +501,9 @@ async fn scenario(w: &Arc<World>, p: &Plan) {
     }
     w.set_yield_cfg(YieldCfg { intensity: p.yield_intensity, site_mask: p.yield_mask, max_sleep_ms: p.yield_sleep_ms });
 
+    if p.callers.iter().any(|c| c.len() >= 64) {
+        w.stat("probe.c17.long_history");
+    }
     let mut tasks = Vec::new();
     for (start, dur) in p.lock_holds.iter().copied() {
         let node = node.clone();
